@@ -11,8 +11,11 @@ Inductive fkind := KSync | KAsync | KGen.
 Record fdef := { f_kind : fkind;
                  f_wrapper : pargs -> pkwargs -> prog value;
                  f_body : pargs -> pkwargs -> prog value;
-                 f_accepts : pargs -> pkwargs -> bool   (* does calling the (decorated) name bind its arguments? a bare generator
-                                                           function rejects a bad call at once, deal's wrapper( *args, **kwargs) never *) }.
+                 f_accepts : pargs -> pkwargs -> bool;  (* does calling the (decorated) name bind its arguments? a bare generator
+                                                           function rejects a bad call at once, deal's wrapper( *args, **kwargs) never *)
+                 f_binds : pargs -> pkwargs -> bool     (* does the ORIGINAL function's own signature bind the arguments? calling a
+                                                           generator function binds at once: a bad call is a TypeError before any
+                                                           generator object exists (and outside the try of _run_iter) *) }.
 
 (* co: the handle is a coroutine object (created by Spawn) rather than a generator: resuming a finished one is a RuntimeError *)
 Inductive gstate := GNew (co : bool) (p : prog value) | GLive (co : bool) (k : resume -> prog value) | GRunning | GDone (co : bool).
@@ -89,7 +92,9 @@ Section Interp.
           | Some d =>
             let w0 := on_st (emit (EvBody f a kw)) w in
             match f_kind d with
-            | KGen => let (h, w1) := new_gen (GNew false (log (EvBody f a kw) ;;; f_body d a kw)) w in EVal (inl (VGen h)) w1
+            | KGen => if f_binds d a kw
+                      then let (h, w1) := new_gen (GNew false (log (EvBody f a kw) ;;; f_body d a kw)) w in EVal (inl (VGen h)) w1
+                      else EVal (inr (mk_exn TypeErrorC [VStr "call arguments"])) w
             | KSync => match run _ (f_body d a kw) w0 with
                        | Done r w1 => EVal r w1
                        | Susp _ _ _ => EVal (inr bad_yield) w   (* impossible in Python: `yield` in a plain function makes it a generator *)
